@@ -19,6 +19,9 @@ import traceback
 
 
 SUBMIT_YIELD = [False]      # set per run (spec['submit_yield']): ThreadPoolExecutor.submit is a scheduling point
+SUBMIT_FAULT = [None]       # set per run (spec['submit_fault'] = {'executor': index in creation order, 'nth': n}):
+                            # that executor's n-th submit raises what ThreadPoolExecutor.submit raises when the
+                            # interpreter cannot start another worker thread
 
 
 class Deadlock(Exception):
@@ -254,6 +257,55 @@ class ReplayChooser:
         return self.then.choose(sched, runnable)
 
 
+class PhasedChooser:
+    """A directed schedule: phases [{'run': thread-name prefix, 'until': {field: value, ...} | None,
+    'times': n, 'by': prefix}].  In a phase only threads with the prefix run (when none of them can,
+    somebody else is let go, chosen by the fallback chooser); the phase ends when a thread whose name
+    starts with `by` (default: `run`) has logged `times` records matching `until`, or -- with no
+    `until` -- when none of the phase's threads can run any more.  After the last phase the fallback
+    chooser decides."""
+
+    def __init__(self, phases, then=None):
+        self.phases = list(phases)
+        self.then = then or FirstChooser()
+        self.i = 0
+        self.seen = 0
+        self.count = 0
+
+    def _advance(self):
+        self.i += 1
+        self.count = 0
+
+    def choose(self, sched, runnable):
+        while self.i < len(self.phases):
+            ph = self.phases[self.i]
+            until = ph.get('until')
+            if until:
+                by = ph.get('by', ph['run'])
+                moved = False
+                while self.seen < len(sched.trace):
+                    r = sched.trace[self.seen]
+                    self.seen += 1
+                    if r['thread'].startswith(by) and all(r.get(k) == v for k, v in until.items()):
+                        self.count += 1
+                        if self.count >= ph.get('times', 1):
+                            self._advance()
+                            moved = True
+                            break
+                if moved:
+                    continue
+            else:
+                self.seen = len(sched.trace)
+            cands = [i for i, t in enumerate(runnable) if t.name.startswith(ph['run'])]
+            if cands:
+                return cands[0]
+            if not until:
+                self._advance()
+                continue
+            return self.then.choose(sched, runnable)
+        return self.then.choose(sched, runnable)
+
+
 # ---- shims -------------------------------------------------------------------
 
 class Shim:
@@ -484,6 +536,12 @@ def make_executor_cls(sched, registry=None, name_hint=None):
         def submit(self, fn, *args, **kwargs):
             if self.shut:
                 raise RuntimeError('cannot schedule new futures after shutdown')
+            sf = SUBMIT_FAULT[0]
+            if sf and self.name == f'exec{sf["executor"] + 1}':
+                self.n_submits = getattr(self, 'n_submits', 0) + 1
+                if self.n_submits == sf['nth']:
+                    sched.log('submit_fault', executor=self.name, nth=sf['nth'])
+                    raise RuntimeError("can't start new thread")
             f = CoopFuture(sched)
             self.queue.append((f, fn, args, kwargs))
             if self.idle == 0 and len(self.workers) < self.max_workers:
